@@ -40,7 +40,7 @@ MANIFEST = dict(
           "constructor (outcome class, locator warning, every character reference) against the model; every primitive recorded on every input "
           "(classes raised must be recorded kinds); injection of every class at every primitive on several documents against `predict`; "
           "UnicodeDammit with individual lookups/decodings/the generator/the log call made to raise against `dammitE`; an instrumented "
-          "UnicodeDammit against the model of its passes; fault injection through a harness TreeBuilder and across documents (shared builder); "
+          "UnicodeDammit against the model of its passes; fault injection through a harness TreeBuilder; histories across documents and retries (unclosed void elements first, stray end tags between text after; fresh/shared builder), each in its own interpreter, tree node by node against the same markup parsed alone in a fresh interpreter; "
           "direct oracle (no other exception; tree well linked, renderable, searchable, copyable; ParserRejectedMarkup only with a cause)."),
     design="7/C06",
     note=("PARTIAL. Trusted residue, named: `Prims.Within Gen.C06.recorded` - CPython's codecs.lookup raises only LookupError/ValueError/"
@@ -1366,48 +1366,155 @@ def stream_dammit_raising(ctx, drv, byte_cases):
     ctx.count("dammit-raising:requests", len(lines))
 
 
-SEQUEL_POISON = ["<br><p>a<![x]>", "<p>text only <![x]", "<pre>\n k<b><![x]", "<a href=\"&#" + "9" * 4301 + ";\">x</a>"]
-SEQUEL_DOCS = ["<p>a</br>b</p>", "x</br></p>y<br>z</br>", "<pre>\n p</pre> <b> </b>", "<br/></br><hr></hr>t", "text"]
+# first documents / attempts: unclosed void elements, open pre/script/textarea contexts, buffered text — rejected part-way, or accepted
+SEQUEL_FIRST = [
+    ("rejected", "<div>x<br>y<br>z<hr><img src=a><![bad]> never seen"),
+    ("rejected", "<br><p>a<![x]>"),
+    ("rejected", "<pre>\n k<b><input><wbr><![x]"),
+    ("rejected", "<p>text only <![x]"),
+    ("rejected", "<a href=\"&#" + "9" * 4301 + ";\">x</a>"),
+    ("accepted", "<div>x<br>y<hr>z<img><input><meta><link><wbr><col><embed><area><base><source><track><param>"),
+    ("accepted", "<br><br><br><hr><hr>"),
+    ("accepted", "<pre> <script>1<2</script><textarea>\n t"),
+]
+# sequels: stray end tags of void names between text runs (text-node boundaries, whitespace-only text), ordinary content
+SEQUEL_DOCS = ["<p>one</br>two</p><i> </br> </i>", "x</br>y", "a</hr> </hr>b", "<b>1</img>2</input>3</meta>4</link>5</wbr>6</b>",
+               "<p>a</br>b</p>", "x</br></p>y<br>z</br>w</br>v", "<pre>\n p</pre> <b> </b>", "<br/></br><hr></hr>t</hr>u", "text",
+               "<td>1</col>2</area>3</base>4</source>5</track>6</param>7</embed>8</td>"]
 
 
-def stream_sequel(ctx):
-    """nothing of a rejected document survives into the NEXT document: same process, fresh builder and shared builder instance"""
+def tree_nodes(soup):
+    """the tree node by node (class, name/text, attributes, linkage by pre-order index), JSON-normalised"""
+    return json.loads(json.dumps(dump(soup)["nodes"]))
+
+
+_FRESH_SCRIPT = r"""
+import sys, json, warnings
+sys.path.insert(0, sys.argv[1]); sys.path.insert(0, sys.argv[2])
+import logging; logging.disable(logging.CRITICAL)
+from harness import c06
+from bs4 import BeautifulSoup
+docs = json.load(sys.stdin)
+out = []
+warnings.simplefilter("ignore")
+for d in docs:
+    out.append(c06.tree_nodes(BeautifulSoup(d, "html.parser")))
+json.dump(out, sys.stdout)
+"""
+
+
+def fresh_process_trees(docs):
+    """the tree of each document parsed ALONE, each in its own fresh interpreter (nothing parsed before it in that process)"""
+    import subprocess
+    import sys
+    from .common import VERIF, REPO
+    out = []
+    procs = [subprocess.Popen([sys.executable, "-B", "-c", _FRESH_SCRIPT, str(VERIF), str(REPO)], stdin=subprocess.PIPE,
+                              stdout=subprocess.PIPE, stderr=subprocess.PIPE, text=True) for _ in docs]
+    for d, pr in zip(docs, procs):
+        o, e = pr.communicate(json.dumps([d]))
+        if pr.returncode != 0:
+            raise RuntimeError("fresh-process reference failed: " + e[-400:])
+        out.append(json.loads(o)[0])
+    return out
+
+
+def run_history(first, doc, shared, k):
+    """one history in THIS interpreter: the first document (or k rejected strategies) and then the sequel; -> (how the first ended, tree)"""
     from bs4 import BeautifulSoup
     from bs4.builder import HTMLParserTreeBuilder
     from bs4.exceptions import ParserRejectedMarkup
+    with warnings.catch_warnings():
+        warnings.simplefilter("ignore")
+        if k:
+            FB = _fault_builder_class()
+            plan = [("r%d" % i, None, None, False, ("natural", first)) for i in range(k)] + [(doc, None, None, False, ("accept",))]
+            return "retry", tree_nodes(BeautifulSoup("ignored", builder=FB(plan)))
+        b = HTMLParserTreeBuilder() if shared else None
+        try:
+            BeautifulSoup(first, "html.parser") if b is None else BeautifulSoup(first, builder=b)
+            ended = "accepted"
+        except ParserRejectedMarkup:
+            ended = "rejected"
+        except Exception:  # noqa (reported by the construct stream)
+            ended = "crashed"
+        soup = BeautifulSoup(doc, "html.parser") if b is None else BeautifulSoup(doc, builder=b)
+        return ended, tree_nodes(soup)
 
-    def parse(doc, builder=None):
-        with warnings.catch_warnings():
-            warnings.simplefilter("ignore")
-            s = BeautifulSoup(doc, "html.parser") if builder is None else BeautifulSoup(doc, builder=builder)
-        d = dump(s)
-        d["state"].pop("builder", None)
-        return d
-    for doc in SEQUEL_DOCS:
-        base = parse(doc)
-        for poison in SEQUEL_POISON:
-            for shared in (False, True):
-                b = HTMLParserTreeBuilder() if shared else None
-                try:
-                    with warnings.catch_warnings():
-                        warnings.simplefilter("ignore")
-                        BeautifulSoup(poison, "html.parser") if b is None else BeautifulSoup(poison, builder=b)
-                    rejected = False
-                except ParserRejectedMarkup:
-                    rejected = True
-                except Exception:  # noqa (reported by the construct stream)
-                    rejected = False
-                after = parse(doc, b)
-                ctx.case(("S", doc, poison, shared) if rejected else None)
-                ctx.count(f"sequel:{'shared-builder' if shared else 'fresh-builder'}:{'after-rejection' if rejected else 'after-success'}")
-                if after != base:
-                    diff = [k for k in after["state"] if after["state"][k] != base["state"].get(k)]
-                    ctx.violation("a document parsed after a rejected one differs from the same document parsed before it"
-                                  + (" (shared builder instance)" if shared else ""),
-                                  case={"op": "sequel", "doc": doc, "poison": poison if len(poison) < 100 else poison[:40] + "…", "shared_builder": shared,
-                                        "poison_full": enc_markup(poison)},
-                                  expected={"nodes": base["nodes"][:8]}, observed={"nodes": after["nodes"][:8], "state_fields_differing": diff},
-                                  stream="sequel")
+
+_HISTORY_SCRIPT = r"""
+import sys, json
+sys.path.insert(0, sys.argv[1]); sys.path.insert(0, sys.argv[2])
+import logging; logging.disable(logging.CRITICAL)
+from harness import c06
+h = json.load(sys.stdin)
+try:
+    ended, nodes = c06.run_history(c06.dec_markup(h["first"]), h["doc"], h["shared"], h["k"])
+    json.dump({"ended": ended, "nodes": nodes}, sys.stdout)
+except Exception as e:
+    json.dump({"ended": "error:" + type(e).__name__ + ": " + str(e)[:200], "nodes": None}, sys.stdout)
+"""
+
+
+def run_histories_fresh(histories, width=16):
+    """each history in its own fresh interpreter (so a reported history is its own complete replay), `width` at a time"""
+    import subprocess
+    import sys
+    from .common import VERIF, REPO
+    out = [None] * len(histories)
+    for s0 in range(0, len(histories), width):
+        batch = list(range(s0, min(len(histories), s0 + width)))
+        procs = [subprocess.Popen([sys.executable, "-B", "-c", _HISTORY_SCRIPT, str(VERIF), str(REPO)], stdin=subprocess.PIPE,
+                                  stdout=subprocess.PIPE, stderr=subprocess.PIPE, text=True) for _ in batch]
+        for i, pr in zip(batch, procs):
+            o, e = pr.communicate(json.dumps(histories[i]))
+            if pr.returncode != 0:
+                raise RuntimeError("history subprocess failed: " + e[-400:])
+            out[i] = json.loads(o)
+    return out
+
+
+def stream_sequel(ctx):
+    """Nothing of an earlier document or of a rejected attempt survives into the next tree: the tree of the sequel (node by node, text
+    node boundaries and whitespace-only text included) must be the tree of the same markup parsed alone in a FRESH interpreter. Histories,
+    each run in its own fresh interpreter: a rejected or accepted first document then a second constructor call (fresh builder object /
+    one shared builder instance), and k rejected strategies then acceptance inside one constructor call (the real tokenizer rejecting
+    part-way). Quick tier: a seeded half of the grid; thorough: all of it."""
+    ref = dict(zip(SEQUEL_DOCS, fresh_process_trees(SEQUEL_DOCS)))
+    hs = []
+    for how, first in SEQUEL_FIRST:
+        for shared in (False, True):
+            for doc in SEQUEL_DOCS:
+                hs.append({"first": enc_markup(first), "doc": doc, "shared": shared, "k": None})
+        if how == "rejected":
+            for k in (1, 2):
+                for doc in SEQUEL_DOCS:
+                    hs.append({"first": enc_markup(first), "doc": doc, "shared": True, "k": k})
+    if not ctx.thorough:
+        r = ctx.rng("sequel")
+        must = [h for h in hs if h["doc"] in SEQUEL_DOCS[:3] and dec_markup(h["first"]) in (SEQUEL_FIRST[0][1], SEQUEL_FIRST[5][1])]
+        rest = [h for h in hs if h not in must]
+        r.shuffle(rest)
+        hs = must + rest[: len(rest) // 3]
+    ctx.exhaustive_parts.append(f"sequel: {len(hs)} histories (first document or k<=2 rejected strategies, then one of {len(SEQUEL_DOCS)} sequels; "
+                                "fresh/shared builder), each in its own interpreter, against trees from fresh interpreters")
+    results = run_histories_fresh(hs)
+
+    def texts(ns):
+        return [n[1] if n[0] != "tag" else "<%s>" % n[1] for n in ns]
+    for h, res in zip(hs, results):
+        first = dec_markup(h["first"])
+        kind = (f"{h['k']} rejected attempt(s)" if h["k"] else f"a first document ({res['ended']})")
+        ctx.count(f"sequel:{'retry' if h['k'] else res['ended']}:{'shared' if h['shared'] else 'fresh'}-builder")
+        ctx.case(("S", first, h["doc"], h["shared"], h["k"]))
+        want = ref[h["doc"]]
+        if res["nodes"] is None:
+            ctx.violation(f"the history {kind} {ascii(first)[:70]} then {ascii(h['doc'])} did not yield a tree: {res['ended']}",
+                          case={"op": "sequel"} | h, stream="sequel")
+        elif res["nodes"] != want and not capped(ctx, "sequel", h["doc"]):
+            ctx.violation(f"after {kind} {ascii(first)[:70]} the markup {ascii(h['doc'])} gives the tree {texts(res['nodes'])} but parsed alone in a "
+                          f"fresh interpreter it gives {texts(want)}" + (" (shared builder instance)" if h["shared"] and not h["k"] else ""),
+                          case={"op": "sequel"} | h, expected={"nodes": want[:12]}, observed={"nodes": res["nodes"][:12]}, stream="sequel")
 
 
 # --------------------------------------------------------------------------------------------
@@ -1655,18 +1762,17 @@ def replay(path):
         want = v.get("model_reply")
         return 0 if (got == want if want else not got.startswith("escapes")) else 1
     if c.get("op") == "sequel":
-        from bs4 import BeautifulSoup
-        from bs4.builder import HTMLParserTreeBuilder
-        poison = dec_markup(c["poison_full"])
-        b = HTMLParserTreeBuilder() if c["shared_builder"] else None
-        before = BeautifulSoup(c["doc"], "html.parser").decode()
-        try:
-            BeautifulSoup(poison, "html.parser") if b is None else BeautifulSoup(poison, builder=b)
-        except Exception as e:  # noqa
-            print("poison document:", type(e).__name__)
-        after = (BeautifulSoup(c["doc"], "html.parser") if b is None else BeautifulSoup(c["doc"], builder=b)).decode()
-        print("before:", before, "| after:", after)
-        return 0 if before == after else 1
+        first, doc = dec_markup(c["first"]), c["doc"]
+        want = fresh_process_trees([doc])[0]
+        ended, got = run_history(first, doc, c["shared"], c["k"])
+
+        def texts(ns):
+            return [n[1] if n[0] != "tag" else "<%s>" % n[1] for n in ns]
+        print("history:", (f"{c['k']} rejected strategies" if c["k"] else f"first document ({ended})"), describe(first), "then", ascii(doc),
+              "| shared builder" if c["shared"] else "| fresh builder")
+        print("tree now:               ", texts(got))
+        print("tree in a fresh process:", texts(want))
+        return 0 if got == want else 1
     if c.get("op") == "recorded" and "markup" in c:
         from . import c06_envelope as E
         seen = {}
